@@ -396,9 +396,13 @@ def map(
     )
 
     # Apply each layer's operation along depth
-    binned = np.array(
-        [getattr(np, op)(binned[i], axis=0) for i, op in enumerate(operations)]
-    )
+    if thick:
+        binned = np.array(
+            [getattr(np, op)(binned[i], axis=0) for i, op in enumerate(operations)]
+        )
+    else:
+        # A single layer without thickness: nothing to reduce
+        binned = binned[:, 0, ...]
 
     # Handle thick maps
     if thick:
